@@ -4,6 +4,7 @@
   accounts and the fee collector.
 -/
 import NibiruProofs.EvmTxLemmas
+import Generated.Facts
 namespace Nibiru.EvmTx
 
 theorem effPrice_ge_base (m : Msg) : baseFeeWei ≤ effPrice m := by
@@ -250,5 +251,15 @@ theorem C05_collector_gain_eq_signer_payment (s : State) (m : Msg) (h : (deliver
           show getBal (setBal (setSeq s1 m.sender (m.nonce + 1)) m.sender _) a = _
           have : ¬ m.sender = a := fun e => hne e.symm
           simp [this, b1]
+
+/-! ### T1: the mirror only exists for accounts that have an EVM counterpart -/
+
+/-- `SyncStateDBWithAccount` writes the bank balance of `acc` into the StateDB under `NibiruAddrToEthAddr(acc)`, which keeps the LAST
+    20 bytes of the address. The model's accounts are the 20-byte ones (one name on both sides); for any other address — a Wasm
+    contract's is 32 bytes long — the function has to leave the StateDB alone, or the balance is mirrored into, and at `Commit` minted
+    to, an unrelated 20-byte account (fix: commit in /repo; found by the `evmsupply` run: Wasm `execute` with unibi funds to a
+    contract that keeps them raised the supply by the funds). -/
+theorem fact_C05_sync_only_for_addresses_with_an_evm_counterpart :
+    Generated.syncStateDBEarlyReturns = ["bk.StateDB == nil", "len(acc) != gethcommon.AddressLength"] := by decide +kernel
 
 end Nibiru.EvmTx
